@@ -29,9 +29,13 @@ func startsWord(t string) bool {
 	return c == '_' || c >= '0' && c <= '9' || c >= 'a' && c <= 'z' || c >= 'A' && c <= 'Z'
 }
 
-var comments = []string{"// note", "// 注释", "//", "// a, b { c }", "//// x", "// trailing ; stuff", "// 100% done", "// %s %d", "// $x `tick` \"q\"", "// <tag> &amp; {{.}}", "//\ttab"}
+var commentPool = []string{"// note", "// 注释", "//", "// a, b { c }", "//// x", "// trailing ; stuff", "// 100% done", "// %s %d", "// $x `tick` \"q\"", "// <tag> &amp; {{.}}", "//\ttab"}
 
-func joinNoisy(toks []string, r *Rng, noise int) string {
+func joinNoisy(toks []string, r *Rng, noise int) string { return joinLayout(toks, r, noise, true) }
+
+// joinLayout lays a token stream out; with comments=false only white space
+// varies (the token stream, comments included, stays the same).
+func joinLayout(toks []string, r *Rng, noise int, comments bool) string {
 	var b strings.Builder
 	for i, t := range toks {
 		b.WriteString(t)
@@ -43,6 +47,13 @@ func joinNoisy(toks []string, r *Rng, noise int) string {
 			break
 		}
 		next := toks[i+1]
+		if !comments {
+			// white-space-only layouts: a separator between every two tokens,
+			// only its kind varies (blank, tab, line break, several), so that
+			// all such layouts of one token stream have the same word sequence
+			b.WriteString(r.Pick([]string{" ", " ", "\n", "\t", "\r\n", "  ", "\n\n", "\n    "}))
+			continue
+		}
 		need := isWord(t) && startsWord(next)
 		// "char[" / "zchar[" DIGITS "]" and attribute heads must stay glued only
 		// as far as the lexer requires; whitespace between separate tokens is free
@@ -60,13 +71,17 @@ func joinNoisy(toks []string, r *Rng, noise int) string {
 		case x < 10:
 			b.WriteString("\n\n    ")
 		default:
-			switch r.Intn(4) {
+			k := r.Intn(4)
+			if !comments && (k == 0 || k == 2) {
+				k = 1
+			}
+			switch k {
 			case 0:
-				b.WriteString(" " + r.Pick(comments) + "\n")
+				b.WriteString(" " + r.Pick(commentPool) + "\n")
 			case 1:
 				b.WriteString("\r\n")
 			case 2:
-				b.WriteString("\n" + r.Pick(comments) + "\n" + r.Pick(comments) + "\n")
+				b.WriteString("\n" + r.Pick(commentPool) + "\n" + r.Pick(commentPool) + "\n")
 			default:
 				b.WriteString("\t")
 			}
@@ -75,16 +90,21 @@ func joinNoisy(toks []string, r *Rng, noise int) string {
 	if r.Chance(1, 2) {
 		b.WriteString("\n")
 	}
-	if r.Chance(1, 8) {
-		b.WriteString(r.Pick(comments))
+	if comments && r.Chance(1, 8) {
+		b.WriteString(r.Pick(commentPool))
 	}
 	return b.String()
 }
 
 var garbage = []string{"$", "}", "{", "{{", "@", "@foo(", "'", "\"", "`", ";;", "=", "packet", "root root", "match", "[", "]", "0x", "\\", "\xff\xfe", "é", "repeat repeat", ",,"}
 
-// FormatInput produces one input text; wantInvalid biases toward syntax errors.
-func FormatInput(seed uint64) []byte {
+// FormatInput produces one input text.
+func FormatInput(seed uint64) []byte { return FormatInputLayout(seed, 0) }
+
+// FormatInputLayout: the same token stream as FormatInput(seed) for every
+// layout number; layout 0 is FormatInput itself, other layouts differ from it
+// in white space only (where comments sit relative to line breaks included).
+func FormatInputLayout(seed uint64, layout int) []byte {
 	r := NewRng(seed)
 	switch x := r.Intn(100); {
 	case x < 3:
@@ -120,11 +140,11 @@ func FormatInput(seed uint64) []byte {
 		text += "\npacket " + r.Pick(words) + "Extra {\n    Unknown" + r.Pick(words) + " ref,\n    @leftPad('0')\n    char[3] padded,\n}\n"
 	}
 	toks := tokenize(text)
-	if r.Chance(1, 8) && len(toks) > 0 {
+	if r.Chance(1, 3) && len(toks) > 0 {
 		// comments in odd places
 		for k := 0; k < 1+r.Intn(4); k++ {
 			pos := r.Intn(len(toks) + 1)
-			toks = append(toks[:pos], append([]string{r.Pick(comments)}, toks[pos:]...)...)
+			toks = append(toks[:pos], append([]string{r.Pick(commentPool)}, toks[pos:]...)...)
 		}
 	}
 	if r.Chance(2, 5) && len(toks) > 2 {
@@ -170,6 +190,10 @@ func FormatInput(seed uint64) []byte {
 				toks = append(toks[:pos], append([]string{"// " + r.Pick(runs)}, toks[pos:]...)...)
 			}
 		}
+	}
+	if layout != 0 {
+		lr := NewRng(SubSeed(seed, "layout", layout))
+		return []byte(joinLayout(toks, lr, 1+lr.Intn(4), false))
 	}
 	if r.Chance(1, 5) {
 		return []byte(strings.Join(toks, " "))
